@@ -33,6 +33,25 @@ PROPS = {
         "technique": "exhaustive enumeration of a deviation-bounded parameter table on the implementation with a resource-usage oracle (deterministic allocation counts + CPU budget)",
         "assumptions": ["boundedness is judged by a fixed budget on two screen sizes, not by fitting a polynomial"],
     },
+    "C04": {
+        "bin": "px_text", "budget_ms": 30000, "wall_cap": {"quick": 150, "thorough": 2400},
+        "rule": "documents: all rows of width 1..=3 (thorough 4) over an 8-cell alphabet with SAUCE carrying the width (also as 1- and 2-row documents); width 80 rows prefix(<=2 cells).filler.suffix(<=2 cells) with 3 fillers (runs starting at column 0 and ending at 78/79); "
+                "all ordered pairs of a ~28-cell extended alphabet (RGB and xterm colours, bold flag, bright backgrounds, every extended attribute the writer emits, blank variants 0/255, control characters under IcyTerm handling) under 27 (screen preparation x control handling x colour mode) x 5 encoding variants; "
+                "a 9-row core set under every one of the 6912 option vectors; the row families under every vector within 1 (thorough 2) option of the default; heights {1,2,25,60} x widths {1,2,79,80,81,132}. oracle: same character, displayed fg (non-blank glyphs), bg and blink per cell",
+        "level_text": "every document of the stated small scope and every option vector (6912) on a core set is written by the real ANSI writer, parsed by the real loader and compared cell by cell",
+        "level_note": "foreground is not compared on blank glyphs; 0/32/255 compare as equal blanks only when whitespace normalisation is on; rows below the writer's last non-blank row may be missing; UTF-8 'modern terminal' output excluded by the statement",
+        "technique": "small-scope exhaustive input x configuration enumeration (deviation-bounded product for the wide option space) with a round-trip oracle",
+        "assumptions": [],
+    },
+    "C15": {
+        "bin": "px_text", "budget_ms": 30000, "wall_cap": {"quick": 150, "thorough": 2400},
+        "rule": "per format (avt, pcb, msg, an1, asc, ata): prefix(<=2, thorough 3).filler.suffix rows over an 8-cell alphabet at width 80 (40 for ATASCII), every row length 0..=width at heights {1,2,25,40} with a non-empty last row, "
+                "every printable character (single and doubled, minus each format's lead-in characters), every ordered pair of (fg 0..15, bg 0..7) attributes, all three screen preparations",
+        "level_text": "every document of the stated small scope is written by the real writers, parsed by the real loaders and compared cell by cell",
+        "level_note": "blink is not compared (the statement lists characters, 16 foreground and 8 background colours only); blank cells on black after the end of a row are not significant; ASCII compares characters only, ATASCII characters and inverse video",
+        "technique": "small-scope exhaustive input enumeration with a round-trip oracle",
+        "assumptions": [],
+    },
     "C05": {
         "bin": "px_binfmt", "budget_ms": 30000, "wall_cap": {"quick": 120, "thorough": 2400},
         "rule": "per format (xb, bin, adf, idf, tnd): dimension menus combined with <=2 (thorough 3) deviations from a base document (XBin: 7 widths x 6 heights x 7 font set-ups x palette x blink/ice x compression), "
@@ -145,6 +164,8 @@ PROPS = {
 HOOK_COMMITS = ["81babd1"]
 
 ENGINES = [
+    {"name": "px_text", "path": "harness/src/bin/px_text.rs", "serves_properties": ["C04", "C15"],
+     "kind_free_text": "text format round trips (ANSI with the full option space; Avatar, PCBoard, Ctrl-A, Renegade, ASCII, ATASCII)"},
     {"name": "px_editor", "path": "harness/src/bin/px_editor.rs", "serves_properties": ["C08"],
      "kind_free_text": "edit-history explorer with observational snapshots and undo/redo walks"},
     {"name": "px_layers", "path": "harness/src/bin/px_layers.rs", "serves_properties": ["C12", "C13"],
